@@ -68,3 +68,37 @@ Check C01_dash_contour_terminates :
 Example C01_dash_example :
   match z_dash_contour 1200 [3; 2] 2 0 1000 false true with Some ps => length ps = 201%nat | None => False end.
 Proof. vm_compute. reflexivity. Qed.
+
+(* ---- the edge set-up of the scan converter -------------------------------------------------------------------------------- *)
+(* LineEdge::new (Model/Edge.v, bit-exact through the line_edge suite, overflow-checked semantics: None = a panic) returns for
+   every pair of points whose coordinates are finite and within +-2^(14 - shift) px: +-16384 px for aliased fills, +-4096 px at
+   the supersampling shift 2.  No i32 overflow, no division by zero, and the debug assertions of fdot6::to_fdot16 hold because the
+   first abscissa lies between the two end abscissae. *)
+From Coq Require Import Reals Bool Lra.
+From Flocq Require Import Core.Zaux Core.Raux Core.Defs IEEE754.BinarySingleNaN.
+From TS Require Import Model.Rect Model.PathBuilder Model.Edge Model.CurveEdge Model.CurveFill Proofs.RectPoints Proofs.WalkProofs
+  Proofs.QuadMono Proofs.EdgeNoPanic.
+Theorem C01_line_edge_new_no_panic :
+  forall p0 p1 shift, 0 <= shift <= 8 ->
+  px_ok shift (px p0) -> px_ok shift (py p0) -> px_ok shift (px p1) -> px_ok shift (py p1) ->
+  line_edge_new p0 p1 shift <> None.
+Proof. exact line_edge_new_no_panic_px. Qed.
+
+(* the debug assertion `y0 <= y1 && y1 <= y2` of QuadraticEdge::new2 holds for every piece chop_quad_at_y_extrema produces
+   (Model/CurveFill.v), for every quad with finite ordinates up to 2^100: the chopped pieces and the forced-monotone fallback are
+   monotone by construction, and the test `is_not_monotonic` looks at the signs of binary32 differences, which are the signs of
+   the exact differences *)
+Theorem C01_quad_pieces_pass_the_monotonic_assertion :
+  forall p0 p1 p2 sh a b c,
+  bnd (py p0) -> bnd (py p1) -> bnd (py p2) -> 0 <= sh <= 8 -> In (a, b, c) (chop_quad_at_y_extrema p0 p1 p2) ->
+  let y0 := fd6 (py a) sh in let y1 := fd6 (py b) sh in let y2 := fd6 (py c) sh in
+  let '(y0', y2') := if y2 <? y0 then (y2, y0) else (y0, y2) in
+  andb (y0' <=? y1) (y1 <=? y2') = true.
+Proof. exact quad_new2_assert_holds. Qed.
+
+(* non-vacuity: 100.25 is finite and within 2^14 *)
+Example C01_px_ok_example : px_ok 0 (F32.of_bits 1120436224).
+Proof.
+  split; [reflexivity|]. set (x := F32.of_bits 1120436224). vm_compute in x. subst x. unfold B2R, F2R. cbn.
+  rewrite Rabs_pos_eq by lra. lra.
+Qed.
